@@ -50,6 +50,22 @@ pub fn realistic_payload_with(codec: u8, size: usize, sync: bool, tag: u64, inba
         out.extend_from_slice(hdr);
         out.extend_from_slice(payload);
     };
+    // a packet that holds nothing but parameter sets (the "codec config" buffer some hardware encoders emit as a sample of
+    // its own): a sample like any other for a muxer that stores what it is given
+    if codec % 4 <= 1 && size % 16 == 9 {
+        if codec % 4 == 1 {
+            nal(&[0x40, 0x01], &[0x0c, 0x01, 0xff, 0xff, 0x01, 0x60]);
+        }
+        if codec % 4 == 0 {
+            nal(&[0x67], &[0x42, 0x00, 0x1e, 0x8d, 0x68, 0x50, (tag & 0x7f) as u8 | 0x10]);
+            nal(&[0x68], &[0xce, 0x3c, 0x80]);
+        } else {
+            nal(&[0x42, 0x01], &[0x01, 0x01, 0x60, 0x10, 0x10, 0x90, 0x11, (tag & 0x7f) as u8 | 0x10]);
+            nal(&[0x44, 0x01], &[0xc1, 0x72, 0xb4]);
+        }
+        let _ = body;
+        return out;
+    }
     match codec % 4 {
         0 => {
             if sync {
@@ -210,6 +226,11 @@ pub struct FragTrace {
 /// Runs the ops, checks the C10 clauses step by step against the queue model, returns the trace for C11/C02.
 pub fn run_and_check(o: &mut Outcome, l: &LoweredFrag, check_c10: bool) -> FragTrace {
     let run = run_frag(&l.cfg, &l.ops);
+    check_run(o, l, check_c10, run)
+}
+
+/// The same judgement for a run obtained elsewhere (e.g. one of several muxers driven alternately).
+pub fn check_run(o: &mut Outcome, l: &LoweredFrag, check_c10: bool, run: crate::frag::FRun) -> FragTrace {
     let mut t = FragTrace { emitted: vec![], inits: vec![], rejected_writes: 0, accepted_writes: 0, empty_flushes: 0, queries: 0, panic: run.panic.clone() };
     if !run.built {
         return t;
@@ -402,6 +423,9 @@ pub fn frag_case_strategy(max_ops: usize) -> impl Strategy<Value = FragCase> {
             4 => Just(0u64),
             4 => 0u64..10_000_000,
             2 => 0u64..(1u64 << 40),
+            // the sequence straddles a multiple of 2^31 ticks (odd and even ones: 32-bit signed and unsigned views of a timestamp
+            // change there), starting a few frames before it
+            2 => (1u64..12, proptest::sample::select(vec![1u64, 1500, 3000, 4500, 9000, 30_000, 90_000])).prop_map(|(k, back)| (k << 31) - back),
             // dictionary: DTS values whose bytes spell a box type, at every byte alignment of the 64-bit field
             1 => (0usize..8, 0u32..5).prop_map(|(i, sh)| (u32::from_be_bytes(*[b"trun", b"mdat", b"moof", b"tfdt", b"traf", b"mfhd", b"tfhd", b"stco"][i]) as u64) << (8 * sh)),
         ],
